@@ -45,14 +45,23 @@ def mon_limit_df(result, pre, *a, **k):
         return
     kept = set(kept_idx)
     n_in = n_out = n_str = 0
+    from fractions import Fraction
+    # exact positions of the limits in samples (rational arithmetic): a coincidence that is exact in real numbers is
+    # decided by the closed interval of the statement; one that only holds up to rounding (|d| <= EPS) is left open
+    xlo = None if start is None else Fraction(start) * Fraction(fs)
+    xhi = None if stop is None else Fraction(stop) * Fraction(fs)
+
+    def near_not_exact(v, x):
+        return x is not None and abs(v - float(x)) <= EPS and Fraction(v) != x
     for i, ix in enumerate(pre_idx):
-        near = (start is not None and abs(L[i] - lo) <= EPS) or (stop is not None and abs(N[i] - hi) <= EPS) or \
-               (start is not None and abs(N[i] - lo) <= EPS) or (stop is not None and abs(L[i] - hi) <= EPS)
-        inside = L[i] >= lo and N[i] <= hi
-        outside = N[i] < lo or L[i] > hi
+        near = near_not_exact(L[i], xlo) or near_not_exact(N[i], xhi) or near_not_exact(N[i], xlo) or near_not_exact(L[i], xhi)
+        inside = (xlo is None or Fraction(L[i]) >= xlo) and (xhi is None or Fraction(N[i]) <= xhi)
+        outside = (xlo is not None and Fraction(N[i]) < xlo) or (xhi is not None and Fraction(L[i]) > xhi)
         if near:
-            count('C18:limit_df_boundary_coincidence')
+            count('C18:limit_df_boundary_coincidence_up_to_rounding')
             continue
+        if (xlo is not None and Fraction(L[i]) == xlo) or (xhi is not None and Fraction(N[i]) == xhi):
+            count('C18:limit_df_boundary_coincidence_exact')
         if inside:
             n_in += 1
             if ix not in kept:
@@ -158,6 +167,10 @@ def setup(sh):
 def make_table(rng):
     from bycycle.features import compute_features
     fs, lo, hi = gen.gen_config(rng)
+    if rng.random() < 0.4:
+        fs = float(rng.choice([128., 1024., 256., 512.]))      # k / fs is exact: boundary coincidences are decidable
+        if hi >= fs / 2:
+            hi = fs / 2 - 1
     sig, fam = gen.gen_signal(rng, fs, lo, hi, rng.uniform(2.0, 6.0))
     center = str(rng.choice(['peak', 'trough']))
     method = str(rng.choice(['cycles', 'amp']))
@@ -315,6 +328,10 @@ def run(sh):
         with quiet():
             E = max(4, n // int(rng.integers(2, 7)))
             tabs = epoch_df(df.copy(), n, E)
+        for tb in tabs[1:3]:
+            if len(tb):          # epoch tables carry negative (relative) sample indices
+                run_cols(sh, {'df': tb, 'center': center})
+                sh.note('split_drop_on_epoch_table')
         two_d = bool(rng.random() < 0.5) and len(tabs) >= 4
         if two_d:
             m = len(tabs) // 2
